@@ -38,6 +38,7 @@ func coverQF(o *Obligation) *Obligation {
 }
 
 const extraPreamble = `(declare-fun str_contains (Str Str) Bool)
+(declare-fun inrange (Iface Iface) Bool)
 `
 
 func (g *G) queryText(o *Obligation, withModel bool) string {
@@ -234,6 +235,12 @@ func (g *G) feasible(s *State) bool {
 	case feasPool <- w:
 	default:
 		w.stop()
+	}
+	if os.Getenv("GOVC_DEBUG_FEAS") != "" {
+		fmt.Fprintf(os.Stderr, "feasible? %s (%d asserts)\n", strings.TrimSpace(strings.SplitN(raw, "\n", 2)[0]), len(s.Asserts))
+		if os.Getenv("GOVC_DEBUG_FEAS") == "dump" {
+			os.WriteFile(fmt.Sprintf("/tmp/feas_%d.smt2", atomic.LoadInt64(&feasCount)), []byte(txt), 0o644)
+		}
 	}
 	if strings.TrimSpace(strings.SplitN(raw, "\n", 2)[0]) == "unsat" {
 		atomic.AddInt64(&feasPruned, 1)
